@@ -212,9 +212,9 @@ class Gen:
                 # constant subscripts (structure only; index semantics are C11's): the same few integers recur in
                 # every scope, so a cache of index constants that outlives one expression would be visible
                 base = self.pick_var(env, "T") or "A"
-                forms = ["[0]", "[1:3]", "[0:1]", "[::2]", "[1:]", "[:2]", "[-1]", "[2:0:-1]"]
+                forms = ["[0]", "[1:3]", "[0:1]", "[::2]", "[1:]", "[:2]", "[-1]", "[2:0:-1]", "[:]"]
                 if len(shp) >= 2:
-                    forms += ["[:, 0]", "[0, 0]", "[0:1, 1]", "[1, 0:2]", "[:, 1:2]"]
+                    forms += ["[:, 0]", "[0, 0]", "[0:1, 1]", "[1, 0:2]", "[:, 1:2]", "[:, :]"]
                 self.p.features.add("subscript")
                 return f"op.ReduceSum({base}{rng.choice(forms)}, keepdims=0)"
             if len(shp) == 1 and shp[0] > 0 and rng.random() < 0.15:
@@ -510,6 +510,15 @@ class Gen:
         body.append(("assign", carried, f"op.Add({carried}, {self.operand(e2, cty, 1)})"))
         body.append(("assign", cnt, f"({cnt} + 1)"))
         body.append(("assign", cv, f"({cnt} < {n})"))
+        if self.rng.random() < 0.4:
+            # trailing `if b: break` in a while loop: both exits (condition, break) stay reachable
+            # (cond_out = And(c, Not(b)) since ddfea30; formerly finding C01-D27)
+            bv = next((v for v in self.fresh["B"] if v not in e2), None)
+            if bv:
+                src = carried if cty == "S" else f"op.ReduceSum({carried}, keepdims=0)"
+                body.append(("assign", bv, f"({src} > {self.rng.choice(['4.0', '10.0', '0.0'])})"))
+                body.append(("break", bv))
+                self.p.features.add("while-break")
         self.loopvars_in_scope = self.loopvars_in_scope[:-2]
         env[cnt] = "I"
         env[cv] = "B"
@@ -1018,9 +1027,63 @@ def pred_d36(fn: ast.FunctionDef) -> bool:
 
 # C01-D23, D25, D26, D30 are fixed in /repo (4304e8f, 87ad64d, 3b56caa, cbb81e7): their regions are generated again
 # (the predicates stay available as `FIXED_PREDICATES` for the evidence histogram).
-PREDICATES = {"C01-D24": pred_d24, "C01-D27": pred_d27, "C01-D28": pred_d28, "C01-D29": pred_d29,
-              "C01-D31": pred_d31, "C01-D33": pred_d33, "C01-D36": pred_d36}
-FIXED_PREDICATES = {"C01-D23": pred_d23, "C01-D25": pred_d25, "C01-D26": pred_d26, "C01-D30": pred_d30}
+def pred_d37(fn: ast.FunctionDef) -> bool:
+    """C01-D37: a subscript whose every index is `:` (`A[:]`, `A[:, :]`)."""
+    for n in ast.walk(fn):
+        if isinstance(n, ast.Subscript) and isinstance(n.ctx, ast.Load):
+            elts = n.slice.elts if isinstance(n.slice, ast.Tuple) else [n.slice]
+            if elts and all(isinstance(e, ast.Slice) and e.lower is None and e.upper is None and e.step is None
+                            for e in elts):
+                return True
+    return False
+
+
+def _exposed(ss, lo: set) -> set:
+    """`exposed_uses` of analysis.py, restated here (not imported from /repo)."""
+    for s in reversed(ss):
+        if isinstance(s, ast.Assign):
+            lo = (lo - _lhs(s)) | _uses(s.value)
+        elif isinstance(s, ast.Return):
+            lo = _uses(s.value)
+        elif isinstance(s, ast.If):
+            if _is_break_if(s):
+                lo = lo | _uses(s.test)
+            else:
+                lo = _exposed(s.body, lo) | _exposed(s.orelse, lo) | _uses(s.test)
+        elif isinstance(s, ast.For):
+            iv = {s.target.id} if isinstance(s.target, ast.Name) else set()
+            lo = (_exposed(s.body, set()) - iv) | _uses(s.iter) | (lo - iv)
+        elif isinstance(s, ast.While):
+            lo = _exposed(s.body, set()) | _uses(s.test) | lo
+    return lo
+
+
+def pred_d38(fn: ast.FunctionDef) -> bool:
+    """C01-D38: a for/while loop without any state variable — nothing assigned in its body is read before its
+    assignment in the body (exposed) or live after the loop."""
+    rec: dict = {}
+    _live_block(fn.body, set(), True, rec)
+    for n in ast.walk(fn):
+        if isinstance(n, (ast.For, ast.While)) and id(n) in rec:
+            if not (_assigned(n.body) & (_exposed(n.body, set()) | rec[id(n)])):
+                return True
+    return False
+
+
+def pred_d39(fn: ast.FunctionDef) -> bool:
+    """C01-D39: a variable named `infinite_loop` in a function with a `while` loop (the converter binds that name
+    to the iteration counter inside the loop body)."""
+    return any(isinstance(n, ast.While) for n in ast.walk(fn)) and any(
+        isinstance(n, ast.Name) and n.id == "infinite_loop" for n in ast.walk(fn))
+
+
+PREDICATES = {"C01-D24": pred_d24, "C01-D28": pred_d28, "C01-D36": pred_d36}
+FIXED_PREDICATES = {"C01-D23": pred_d23, "C01-D25": pred_d25, "C01-D26": pred_d26, "C01-D30": pred_d30,
+                    "C01-D27": pred_d27, "C01-D29": pred_d29, "C01-D37": pred_d37, "C01-D39": pred_d39}
+# regions the converter REFUSES since 9b326d7 / 9f69276 / fc696f7 (formerly findings C01-D31 / C01-D33 / C01-D38): the
+# generator of accepted programs stays out of them; they are exercised as near-miss kinds (`loop-var-read-after-loop`,
+# `return-not-last`, `loop-without-state`) and by the corpus witnesses w_d31 / w_d33 / w_d38
+REFUSED_REGIONS = {"C01-D31": pred_d31, "C01-D33": pred_d33, "C01-D38": pred_d38}
 
 
 def classify_known(src: str) -> list[str]:
@@ -1032,7 +1095,13 @@ def classify_known(src: str) -> list[str]:
 
 
 def excluded_by_known_findings(src: str) -> bool:
-    return bool(classify_known(src))
+    if classify_known(src):
+        return True
+    try:
+        fn = next(n for n in ast.parse(src).body if isinstance(n, ast.FunctionDef))
+    except Exception:
+        return False
+    return any(pr(fn) for pr in REFUSED_REGIONS.values())
 
 
 # =========================================================================== near-miss mutations (C02)
@@ -1084,6 +1153,11 @@ def near_misses(rng, p: Prog) -> list[tuple[str, str, str]]:
        [f"x = op.Neg({a})", f"if {condsrc}:", f"    y = op.Abs({a})", "else:", f"    y = op.Relu({a})", "return x"])
     mk("while-condition-not-updated", "TranslationError",
        [f"x = op.Neg({a})", "go = op.ReduceSum(x, keepdims=0) < 1.0", "while go:", "    x = op.Abs(x)", "return x"])
+    mk("loop-var-read-after-loop", "TranslationError",
+       [f"x = op.Neg({a})", f"i = op.Abs({a})", f"for i in range({nsrc}):", "    x = op.Abs(x)", "return op.Add(x, i)"])
+    mk("loop-without-state", "TranslationError",
+       [f"x = op.Neg({a})", f"for i in range({nsrc}):", f"    x = op.Abs({a})", f"x = op.Relu({a})", "return x"])
+    mk("return-not-last", "TranslationError", [f"x = op.Neg({a})", "return x", f"return op.Abs({a})"])
     mk("loop-var-first-defined-in-loop", "ValueError",
        [f"for i in range({nsrc}):", f"    y = op.Abs({a})", "return y"])
     # two versions of the default-domain opset in one function (default_opset is opset18)
